@@ -299,6 +299,50 @@ func init() {
 		u := defaultUser()
 		big := idpUser{Sub: "user-big", Email: "big@example.com", EmailVerified: true, PreferredUser: strings.Repeat("p", 3000),
 			Groups: []interface{}{strings.Repeat("g", 2500), "x"}}
+		// behind another proxy that does not preserve Host: cookies are set — and deleted — for the PUBLIC host's domain
+		for _, redis := range []bool{false, true} {
+			e, err := newEnv(c, proxyCfg{Redis: redis, ReverseProxy: true, CookieDomains: []string{"apps.example.com", "example.com"}, InjectRequest: defaultInject()})
+			if err != nil {
+				c.violation("HARNESS", "env: "+err.Error(), nil)
+				continue
+			}
+			fh := http.Header{"X-Forwarded-Host": {"portal.apps.example.com"}, "X-Forwarded-Proto": {"https"}}
+			b := newBrowser()
+			sr := e.do(reqSpec{Target: e.opts.ProxyPrefix + "/start?rd=/after", Host: "oauth2-proxy.internal:4180", Header: fh})
+			if sr.raw != nil {
+				b.apply(sr.raw)
+			}
+			if cb, _, err := e.idp.authorize(sr.Location, u); err == nil && sr.Status == 302 {
+				cu, _ := url.Parse(cb)
+				if r := e.do(reqSpec{Target: cu.RequestURI(), Cookie: b.cookieHeader(), Host: "oauth2-proxy.internal:4180", Header: fh}); r.raw != nil {
+					b.apply(r.raw)
+				}
+			}
+			if !hasAnySessionCookie(b, e.opts.Cookie.Name) {
+				c.violation("HARNESS", "login behind a front proxy failed", nil)
+				e.close()
+				continue
+			}
+			held := b.scope[e.opts.Cookie.Name]
+			v := e.do(reqSpec{Target: e.opts.ProxyPrefix + "/sign_out", Cookie: b.cookieHeader(), Host: "oauth2-proxy.internal:4180", Header: fh})
+			if v.raw != nil {
+				b.apply(v.raw)
+			}
+			c.casen(fmt.Sprintf("c11|behind-proxy|%v", redis), fmt.Sprint(v.Status))
+			c.count("signout:behind-proxy")
+			r3 := e.do(reqSpec{Target: "/app/after", Cookie: b.cookieHeader(), Host: "oauth2-proxy.internal:4180", Header: fh})
+			if hasAnySessionCookie(b, e.opts.Cookie.Name) || len(r3.Hits) > 0 {
+				var del []string
+				for _, ck := range v.Cookies {
+					if ck.MaxAge < 0 {
+						del = append(del, ck.Name+" Domain="+ck.Domain+" Path="+ck.Path)
+					}
+				}
+				c.violation("C11", "sign-out behind a front proxy (X-Forwarded-Host) deleted the session cookie under another Domain than it was set with: the browser keeps it",
+					map[string]interface{}{"redis": redis, "set_with_domain_path": held, "deletions": del, "still_authenticated": len(r3.Hits) > 0, "status": v.Status})
+			}
+			e.close()
+		}
 		for _, redis := range []bool{false, true} {
 			for _, dom := range [][]string{nil, {".example.com"}} {
 				for _, path := range []string{"", "/app"} {
@@ -466,6 +510,43 @@ func init() {
 								if e.mr != nil {
 									e.mr.FlushAll()
 								}
+							}
+						}
+					}
+					// the browser's cookies arriving on SEVERAL Cookie header lines (a gateway forwarding HTTP/2 cookie crumbs): every presented
+					// session cookie — on whichever line — is deleted
+					if path == "" && dom == nil {
+						for _, who := range []idpUser{u, big} {
+							b := newBrowser()
+							if lr := e.login(b, who, "/app/home"); !lr.OK {
+								continue
+							}
+							var names []string
+							for n := range b.jar {
+								names = append(names, n)
+							}
+							sort.Strings(names)
+							lines := []string{"other=1; theme=dark"}
+							for i, n := range names {
+								if i%2 == 0 {
+									lines = append(lines, n+"="+b.jar[n])
+								} else {
+									lines[len(lines)-1] += "; " + n + "=" + b.jar[n]
+								}
+							}
+							v := e.do(reqSpec{Target: e.opts.ProxyPrefix + "/sign_out", Header: http.Header{"Cookie": lines}})
+							if v.raw != nil {
+								b.apply(v.raw)
+							}
+							c.casen(fmt.Sprintf("c11|cookie-lines|%v|%s", redis, who.Sub), fmt.Sprintf("%d lines", len(lines)))
+							c.count("signout:cookie-header-lines")
+							r3 := e.do(reqSpec{Target: "/app/after", Cookie: b.cookieHeader()})
+							if hasAnySessionCookie(b, e.opts.Cookie.Name) || len(r3.Hits) > 0 {
+								c.violation("C11", "sign-out did not delete every presented session cookie when the cookies arrived on several Cookie header lines", map[string]interface{}{
+									"redis": redis, "cookie_header_lines": len(lines), "session_cookies_left": jarNamesOf(b), "still_authenticated": len(r3.Hits) > 0})
+							}
+							if e.mr != nil {
+								e.mr.FlushAll()
 							}
 						}
 					}
